@@ -61,7 +61,7 @@ const (
 // the values are written through reflection — test-only, nothing in /repo changes)
 
 type c40Preset struct {
-	name                               string
+	name                              string
 	h, w, mpe, vpm, grp, ratio, ldiff uint
 }
 
@@ -267,13 +267,15 @@ type c40World struct {
 	seq    uint64
 	forkNo int
 
-	history  uint64
-	disabled bool
-	frozen   bool
-	trace    []string
-	excluded bool // the last judged query hit a listed known finding
-	release  func() // non-nil while the harness withholds an indexer step (see valve)
-	everIdx  bool // indexing was enabled and waited for at least once
+	history           uint64
+	disabled          bool
+	frozen            bool
+	trace             []string
+	excluded          bool // the last judged query hit a listed known finding
+	exclClass         string
+	revertedSinceIdle bool   // a head switch removed canonical blocks since the indexer was last known idle
+	release           func() // non-nil while the harness withholds an indexer step (see valve)
+	everIdx           bool   // indexing was enabled and waited for at least once
 }
 
 func newC40World(t *testing.T, rt *rapid.T) *c40World {
@@ -415,6 +417,7 @@ func (w *c40World) commit(newCanon []*c40Blk, op string) {
 	}
 	if fork+1 < len(old) {
 		w.removed = slices.Clone(old[fork+1:])
+		w.revertedSinceIdle = true
 	}
 	w.canon = newCanon
 	w.lastOp = op
@@ -446,6 +449,7 @@ func (w *c40World) waitIdle() {
 	if !w.disabled {
 		w.everIdx = true
 	}
+	w.revertedSinceIdle = false
 	w.tracef("WaitIdle returned")
 }
 
@@ -746,15 +750,30 @@ func (w *c40World) askValve(q *c40Query) (ans c40Answer) {
 const c40ClassTailRace = "query-error-tail-unindex-race"
 
 func (w *c40World) knownTailRace(err error, moment string) bool {
-	if !vs.Known("TestVerifC40Queries", c40ClassTailRace) {
-		return false
-	}
-	if w.history == 0 || w.disabled || strings.Contains(moment, "quiescent") {
+	if w.disabled || strings.Contains(moment, "quiescent") {
 		return false
 	}
 	e := err.Error()
-	return strings.Contains(e, "not found") && (strings.Contains(e, "failed to retrieve") || strings.Contains(e, "failed to process log index epoch"))
+	if !strings.Contains(e, "not found") || !(strings.Contains(e, "failed to retrieve") || strings.Contains(e, "failed to process log index epoch")) {
+		return false
+	}
+	if w.history != 0 && vs.Known("TestVerifC40Queries", c40ClassTailRace) {
+		w.exclClass = c40ClassTailRace
+		return true
+	}
+	if w.revertedSinceIdle && vs.Known("TestVerifC40Queries", c40ClassRevertRace) {
+		w.exclClass = c40ClassRevertRace
+		return true
+	}
+	return false
 }
+
+// c40ClassRevertRace: same symptom without any tail unindexing: the head is switched back
+// to a shorter/other branch while a range query runs; the indexer reverts the head maps
+// (row keys deleted) between rawdb.ReadFilterMapBaseRows' db.Has and db.Get, and the
+// "not found" reaches the caller. Tolerated (if listed) only when a head switch removed
+// canonical blocks since the last quiescence and the moment is not quiescent.
+const c40ClassRevertRace = "query-error-head-revert-race"
 
 // c40ClassTailPartial: when tail unindexing removes the epoch in which the block that the
 // head renderer is still working on begins (history limit shorter than the indexer's lag),
@@ -793,7 +812,7 @@ func (w *c40World) knownTailPartial(q *c40Query, got []*types.Log, want []c40Exp
 // moved while the query ran).
 func (w *c40World) judge(q *c40Query, ans c40Answer, cands [][]*c40Blk, moment string) []c40Exp {
 	if ans.err != nil && !ans.timedOut && w.knownTailRace(ans.err, moment) {
-		w.tracef("query %s at %q: excluded (known finding %s): %v", q, moment, c40ClassTailRace, ans.err)
+		w.tracef("query %s at %q: excluded (known finding %s): %v", q, moment, w.exclClass, ans.err)
 		w.excluded = true
 		return nil
 	}
